@@ -77,4 +77,51 @@ PROPS['C28'] = {
     'technique': 'Lean 4 proof over a list model + differential correspondence check',
 }
 
+
+EDIT_RULE = '8 base-module shapes (0-4 function imports interleaved with global/memory/table/tag imports, 0-4 local functions, globals recognisable by marker or type, 1-3 memories, exports, start, passive/expression/active elements, table initialiser, active data with global.get offsets; every entity carries a unique marker, every reference site a unique tag) x histories of 0-8 operations over 17 operation kinds (ids chosen among live handles, 1/12 of the sites deliberately target a deleted entity) x optional second encode; distinct by case line; non-trivial when the history has at least one operation'
+EDIT_TRUST = COMMON_TRUST + [
+        'state invariant SpaceInv (stored ids = positions; imported entries agree with the import list; unflagged vectors are laid out): proved sufficient for encode (encode_spec) and implied by the decidable check spaceInvB (spaceInvB_sound), which the model driver evaluates in front of the first encode of every generated history (observation line inv=); that every API operation preserves it is checked that way, not yet proved',
+        'modelled, not verified: the operator <-> site-variant table of the harness, wasm-encoder / RoundtripReencoder for everything that is not an index',
+    ]
+def edit_prop(title, files, keys, level_text, technique, translator=False, quick=2500, thorough=150000, extra_assume=None):
+    return {
+        'title': title, 'props_files': files, 'translator': translator,
+        'families': [{'name': 'edit', 'quick_n': quick, 'thorough_n': thorough, 'keys': keys}],
+        'rule': EDIT_RULE, 'trusted': EDIT_TRUST,
+        'assumptions': ['fewer than 2^32 entities per index space (u32 arithmetic)'] + (extra_assume or []),
+        'design_ref': 'DESIGN.md section 6', 'level_text': level_text, 'technique': technique,
+    }
+
+FKEYS = ['retF', 'retX', 'inv', 'F', 'sitesF', 'start']
+PROPS['C06'] = edit_prop('Function references stay bound to the same function across edits', ['Orca/Props/C06.lean'], FKEYS,
+    'Lean 4 theorems: closed form of reorganise_generic for all vectors (loop invariant), the id map sends every live id to the new position of its '
+    'entity and no deleted id anywhere (recalculate_spec), positions are output indices (layout), encode rewrites every stored reference to the '
+    'entity it designated or panics on a dangling one (encode_spec), operator tables regenerated from source; tied to the code by differential runs '
+    'of random histories with a marker-based oracle on the real output.',
+    'Lean 4 proof (loop invariant + refinement of encode to a per-reference specification) + regenerated operator tables + differential correspondence check', translator=True)
+PROPS['C07'] = edit_prop('Global references stay bound to the same global across edits', ['Orca/Props/C07.lean'], ['retG', 'inv', 'G', 'sitesG'],
+    'Lean 4 theorems: global reference operators table (regenerated), every emitted global reference designates the live global its id designated or encode panics, '
+    'ids reported by the three ways of adding a global are the storage positions; same correspondence family as C06, global observations.',
+    'Lean 4 proof + regenerated operator tables + differential correspondence check', translator=True)
+PROPS['C08'] = edit_prop('Memory references stay bound to the same memory across edits', ['Orca/Props/C08.lean'], ['retM', 'inv', 'M', 'sitesM'],
+    'Lean 4 theorems: refers_to_memory / update_memory_instr cover every operator with a memory immediate and every immediate (tables regenerated from the source on every run), '
+    'memory references designate the live memory or encode panics, reported ids; correspondence uses 16 memory operator variants incl. atomics rmw/cmpxchg, SIMD, bulk.',
+    'Lean 4 proof over regenerated tables (cases over 619 operators) + index-space proof + differential correspondence check', translator=True)
+PROPS['C09'] = edit_prop('Deletion removes exactly the deleted entity', ['Orca/Props/C09.lean'], None,
+    'Lean 4 theorems: survivors of re-indexing are exactly the non-deleted entries, deleted ids are in no map, the encoded index space has no deleted entity, '
+    'encode panics iff a stored reference dangles (encode_spec); oracle checks entity sets and loudness on the real output.',
+    'Lean 4 proof + differential correspondence check')
+PROPS['C10'] = edit_prop('Replacing an import with a built function redirects all its uses', ['Orca/Props/C10.lean'], FKEYS,
+    'Lean 4 theorem: replace_import makes the id of the function carrying that import designate the new body, marks exactly that import entry deleted, keeps every other '
+    'function; with C06 every former use designates the new body; correspondence exercises every function import as target among mixed import kinds.',
+    'Lean 4 proof + differential correspondence check')
+PROPS['C11'] = edit_prop('Converting a local function to an import redirects all its uses', ['Orca/Props/C11.lean'], FKEYS,
+    'Lean 4 theorems: convert_local_fn_to_import makes the id designate the new import (entry appended), other functions untouched; the imported prefix of the re-indexed vector is '
+    'sorted by import position for every vector (closed_layout), so conversions in any order agree with the import section.',
+    'Lean 4 proof + differential correspondence check')
+PROPS['C05'] = edit_prop('Encoding again without edits gives the same bytes', ['Orca/Props/C05.lean'], None,
+    'PARTIAL. Lean 4 theorem: when no re-indexing is pending the first encode returns the state unchanged, hence the second encode is identical (all injection / initialiser / export / data histories); '
+    'the full statement is false of the code (known finding F4, counterexample decided in Lean and replayed on the crate); the oracle compares the bytes of two encodes on every fifth case.',
+    'Lean 4 proof (fixpoint of encode under NoReindexPending) + decided counterexample + differential check of two encodes')
+
 ALL_IDS = ['C%02d' % i for i in range(1, 31)]
